@@ -195,6 +195,8 @@ rfbBool rfbDisableExtension(rfbClientPtr cl, rfbProtocolExtension* extension)
 				cl->extensions = extData->next;
 			else
 				prevData->next = extData->next;
+			/* the node was allocated by rfbEnableExtension() and is linked nowhere anymore */
+			free(extData);
 			return TRUE;
 		}
 		prevData = extData;
